@@ -292,5 +292,5 @@ func runC08(c C08Case) *Result {
 }
 
 func TestC08(t *testing.T) {
-	runSpec(t, Spec[C08Case]{ID: "C08", Gen: genC08, Run: runC08})
+	runSpec(t, Spec[C08Case]{ID: "C08", Gen: genC08, Run: runC08, Pre: preScaleC08})
 }
